@@ -152,6 +152,14 @@ def pos_alts(p):
     res = []
     for alt in split_top(p, "|"):
         alt = alt.strip()
+        # `name @ pattern` binds the whole value: the kind is that of the sub-pattern
+        mb = re.match(r"^[a-z_][A-Za-z0-9_]*\s*@\s*(.*)$", alt, re.S)
+        if mb:
+            alt = mb.group(1).strip()
+        # a parenthesised group of alternatives
+        if alt.startswith("(") and matching(alt, 0, "(", ")") == len(alt):
+            res += pos_alts(alt[1:-1])
+            continue
         m = re.match(r"^(?:SteelVal::)?(\w+)\s*\((.*)\)$", alt, re.S)
         if m and m.group(1) in KINDS:
             inner = m.group(2).strip()
@@ -172,6 +180,9 @@ def body_class(b):
             not re.search(r"into_steelval|partial_cmp|==", t):
         return "error"
     if re.match(r"^\{?\s*(steelerr!|stop!)", t) and "TypeMismatch" in t:
+        return "error"
+    core = t.strip("{} \n\t")
+    if core.endswith("None") and ".partial_cmp(" not in t and "Some(" not in t:
         return "error"
     if t in ("false", "{ false }", "None"):
         return "false" if t != "None" else "error"
